@@ -1364,9 +1364,11 @@ class FileBuilder:
             if (isinstance(suboperation, BuildFileOperation) and
                     not suboperation.raised):
                 filename = suboperation.filename
-                created_dirs = self._make_dirs(os.path.dirname(filename))
-                locked_created_dirs = self._build_dirs.started_building_file(
-                    filename, created_dirs)
+                with self._build_dirs.make_dirs_lock:
+                    created_dirs = self._make_dirs(os.path.dirname(filename))
+                    locked_created_dirs = (
+                        self._build_dirs.started_building_file(
+                            filename, created_dirs))
                 try:
                     self._ensure_dirs_case(locked_created_dirs)
                     self._apply_cached_suboperations(suboperation)
@@ -1678,8 +1680,13 @@ class FileBuilder:
         operation = self._operation
         filename = operation.filename
         operation.raised = True
-        self._build_dirs.error_building_file(filename)
+
+        # Remove the file before giving up the reservation of its parent
+        # directories. Otherwise, another thread could find the file in one of
+        # the directories we are virtually removing, and conclude that the
+        # directory contains an externally created file.
         FileBuilder._try_to_remove_file(filename)
+        self._build_dirs.error_building_file(filename)
         logger.warning(
             'Failed to rebuild {:s}, due to an exception'.format(filename))
 
@@ -1778,9 +1785,10 @@ class FileBuilder:
         operation = self._operation
         filename = operation.filename
         self._assert_build_file_call_valid()
-        created_dirs = self._prepare_file_creation()
-        locked_created_dirs = self._build_dirs.started_building_file(
-            filename, created_dirs)
+        with self._build_dirs.make_dirs_lock:
+            created_dirs = self._prepare_file_creation()
+            locked_created_dirs = self._build_dirs.started_building_file(
+                filename, created_dirs)
 
         try:
             self._ensure_dirs_case(locked_created_dirs)
